@@ -13,12 +13,8 @@
     target), every parameter value.  Choices are outside (guards are not consulted; C09). *)
 From Coq Require Import Strings.String.
 From Coq Require Import ZArith List Bool Lia Strings.Byte.
-<<<<<<< HEAD
-From YV Require Import Val.Model Tree.Schema Tree.Merge Tree.PathExpr Tree.PathExprProofs Tree.Params Tree.Project Tree.ParamsProofs Tree.Reading Tree.ReadingProofs.
-From YV Require Import Tree.Editor Tree.ExportProofs Tree.ParamsExport Tree.ParamsList Tree.ProjectLaws.
-=======
 From YV Require Import Val.Model Tree.Schema Tree.Merge Tree.PathExpr Tree.PathExprProofs Tree.Params Tree.Project Tree.ParamsProofs Tree.Reading Tree.ReadingProofs Tree.Chain Tree.ProjectChain Tree.ChainProofs.
->>>>>>> i07
+From YV Require Import Tree.Editor Tree.ExportProofs Tree.ParamsExport Tree.ParamsList Tree.ProjectLaws.
 Import ListNotations.
 Open Scope Z_scope.
 
@@ -236,7 +232,6 @@ Example C07_example :
 Proof. repeat split; vm_compute; reflexivity. Qed.
 Print Assumptions C07_example.
 
-<<<<<<< HEAD
 (** ** the bridge to the shared export model (C07Check.classify's [bridge], as a theorem)
 
     The reader without constraints (no constraint object: the empty query) and the shared Editor
@@ -417,7 +412,7 @@ Example C07_project_laws_example :
   ~ sub_d (project_view (view_depth 3) [] law_schema law_data) (project_view (view_depth 2) [] law_schema law_data).
 Proof. exact project_laws_example. Qed.
 Print Assumptions C07_project_laws_example.
-=======
+
 (** * parameters given in SEVERAL STEPS, a LIST as the target of the read
     (Tree/Chain.v: one group of constraint entries per step, every hook of every group consulted;
     Tree/ProjectChain.v: a node is kept when every step keeps it, a row when its index lies in
@@ -517,4 +512,3 @@ Example C07_chain_example :
     = POk [DCont [Some (DLeaf (LV (VStr [x62]))); Some (DCont [None])]].
 Proof. exact chain_example. Qed.
 Print Assumptions C07_chain_example.
->>>>>>> i07
